@@ -80,7 +80,7 @@ Definition obs_headers (r : request) : headers :=
   let h := match r_kid r with Some _ => hset kid_h [[75;73;68]] h | None => h end in
   match r_gap_sig r with Some _ => hset gap_signature [[77;65;67]] h | None => h end.
 Definition to_obs (r : request) : obs_req :=
-  {| o_method := r_method r; o_headers := obs_headers r; o_path := r_path r;
+  {| o_proto := upstream_proto; o_method := r_method r; o_headers := obs_headers r; o_path := r_path r;
      o_rawquery := r_rawquery r; o_body := body_bytes r |}.
 
 (* the verdict the model predicts for an upstream that verifies with the documented secret *)
